@@ -32,6 +32,8 @@ M = [
  ("kernel-last-end", "hta/common/trace_call_stack.py", '                end = max(end, c_info.last_end)', '                end = max(end, c_info.first_start)', ["C13"]),
  ("bwd-guard", "hta/common/trace_call_stack.py", '                & self.full_df["end"].le(end)\n', '', ["C13"]),
  ("seq-min-depth", "hta/analyzers/cuda_kernel_analysis.py", 'min_depth = candidate_nodes["depth"].min()', 'min_depth = candidate_nodes["depth"].max()', ["C16"]),
+ ("symtab-dup", "hta/common/trace_symbol_table.py", '            if s not in self.sym_index:\n', '            if True:\n', ["C11"]),
+ ("reencode-name-only", "hta/common/trace.py", '        global_map = self.symbol_table.get_sym_id_map()\n        for rank in ranks:\n            local_table = local_symbol_tables[rank].get_sym_table()\n            for col in ["cat", "name"]:', '        global_map = self.symbol_table.get_sym_id_map()\n        for rank in ranks:\n            local_table = local_symbol_tables[rank].get_sym_table()\n            for col in ["name"]:', ["C11"]),
  ("seq-minlen", "hta/analyzers/cuda_kernel_analysis.py", '& candidate_nodes["num_kernels"].ge(min_pattern_len)', '& candidate_nodes["num_kernels"].gt(min_pattern_len)', ["C16"]),
 ]
 
